@@ -36,7 +36,10 @@ RULE = ("taps: every half-length h=1..56 (all odd orders <= 111) x fractional pa
         "shift cases: (h in {1,2,3,16(default),random,56}, record class, size incl. 0/1/2/2h-1/2h/2h+1/odd/even, shift class in "
         "{frac, negfrac, half, int, int_near, int_boundary, edge, huge, eps, dyadic, zero}); distinct by (check, h, N, shift class, shift); "
         "non-trivial = at least one interior stencil compared with a fractional shift, or an integer shift with held ends visible, "
-        "or a DataFrame with selected+unselected+non-numeric columns")
+        "or a DataFrame with selected+unselected+non-numeric columns; wrapper shift classes (generated records of up to ~5200 rows incl. an exactly "
+        "sampled polynomial column, 15 sampling rates, both signs): long_rel / long_abs / long_frac / long_int (100..5000 samples, distance to an integer "
+        "1e-7..1e-5 relative, 1e-4..1e-2 absolute, generic, none), tiny (1e-9..1e-6), small (1e-6..1e-2), near_int (k +- 1e-10..1e-3), beyond the record; "
+        "loader: 2-3 files with different rates and shifts, rows identified by an untouched index column")
 
 U = 2.0 ** -53
 HMAX = 56
@@ -462,9 +465,40 @@ def check_poly(P: C.Part, N: int, h: int, deg: int, s: float, c1n: int = 1, maxp
         P.nontrivial.add(("poly", h, N, deg, float(s)))
 
 
+def poly_record(N: int, deg: int, c1n: int) -> np.ndarray:
+    """T_deg(x_n) + (c1n/2) T_{deg-1}(x_n) on x_n = (2n-(N-1))/(N+1), n = 0..N-1, each value correctly rounded (integer recurrence
+    P_k = b^k T_k(a/b): P_k = 2 a P_{k-1} - b^2 P_{k-2}; same polynomial as cheb_pair)"""
+    if deg == 0:
+        return np.ones(N)
+    b = N + 1
+    a = np.array([2 * n - (N - 1) for n in range(N)], dtype=object)
+    p0 = np.array([1] * N, dtype=object)
+    p1 = a.copy()
+    for _ in range(deg - 1):
+        p0, p1 = p1, 2 * a * p1 - (b * b) * p0
+    num = 2 * p1 + (c1n * b) * p0
+    den = 2 * b ** deg
+    return np.array([int(v) / den for v in num], dtype=np.float64)
+
+
+def long_cols(spec) -> list:
+    """columns of a generated (possibly long) frame, reproducible from the spec: 'p' polynomial of degree <= 31, 'a' noise + offset, 'w' random walk,
+    'k' integers, 'label' strings (never numeric)"""
+    N = int(spec["N"])
+    r = np.random.default_rng(int(spec["dseed"]))
+    cols = [["p", "f", poly_record(N, int(spec["deg"]), int(spec["c1n"]))],
+            ["a", "f", r.standard_normal(N) + 2.0],
+            ["w", "f", np.cumsum(r.standard_normal(N))],
+            ["k", "i", r.integers(-20, 21, N)],
+            ["label", "s", [f"r{j % 7}" for j in range(N)]]]
+    return [cols[j] for j in r.permutation(len(cols))]
+
+
 def build_df(spec):
     import pandas as pd
     cols = {}
+    if "dseed" in spec:
+        spec = dict(spec, cols=long_cols(spec))
     for name, kind, vals in spec["cols"]:
         if kind == "f":
             cols[name] = np.array(vals, dtype=np.float64)
@@ -488,6 +522,10 @@ def check_df(P: C.Part, spec: Dict[str, Any]):
     df0 = df.copy(deep=True)
     fs, seconds, columns, inplace, suffix = spec["fs"], spec["seconds"], spec["columns"], spec["inplace"], spec["suffix"]
     rep = dict(spec, kind="df")
+    tight = "dseed" in spec
+    cls = spec.get("cls", "?")
+    if tight:
+        P.hit(f"dfshift_{cls}")
     P.cases += 1
     kw = {}
     if suffix is not None:
@@ -543,7 +581,42 @@ def check_df(P: C.Part, spec: Dict[str, Any]):
                         f"timeshift(col, seconds*fs = {shift!r})[{n}] = {float(want[n]) if n >= 0 else None!r}", {"check": "df_values"}, dict(rep, column=c, n=n))
                 return
             si, d = split(shift)
+            # a correct wrapper may round seconds*fs differently (e.g. seconds/(1/fs)): a few ulp of the shift, in samples
+            eps_s = 4 * U * max(1.0, abs(float(shift)))
+            if tight:
+                # same routine, same shift: only the rounding of the taps / dot products (twice) and of the product seconds*fs may differ;
+                # |d out / d shift| <= sum_k|l_k'| max|data| <= (DSHIFT/3) max|data| at every sample (held ends included: the padded record is
+                # bounded by max|data| and the output is continuous in the shift); sum_k|l_k(d)| max|data| bounds every S_n
+                L = float(np.abs(exact_taps(h, d)).sum())
+                tolT = (2 * tolc(h) * L + DSHIFT * eps_s) * amax
+                if got.shape != want.shape or not np.all(np.abs(got - want) <= tolT):
+                    n = int(np.argmax(np.abs(got - want))) if got.shape == want.shape else -1
+                    viol(P, f"df_timeshift(fs={fs!r}, seconds={seconds!r}) column {c!r} (size {x.size}): row {n} = {float(got[n]) if n >= 0 else None!r} but "
+                            f"timeshift(col, seconds*fs = {shift!r})[{n}] = {float(want[n]) if n >= 0 else None!r} (tol {tolT:.3g}): the wrapper did not "
+                            f"apply seconds*fs samples", {"check": "df_values_tight", "cls": cls, "negative": bool(shift < 0)}, dict(rep, column=c, n=n))
+                    return
+                P.hit("df_tight_compared")
             r, ref, S, tol2 = interior_ref(x, h, si, d)
+            if tight and len(r) > 2 and c == "p":
+                # the polynomial column is reproduced at n + seconds*fs (exact rational evaluation; one sample trimmed at both ends of the
+                # interior so that a product rounded across an integer does not move the stencil out of the record)
+                fsh = Fraction(float(shift))
+                deg, c1 = int(spec["deg"]), Fraction(int(spec["c1n"]), 2)
+                idx = list(r)[1:-1]
+                if len(idx) > 16:
+                    step = len(idx) / 16
+                    idx = sorted({idx[int(i * step)] for i in range(16)} | {idx[0], idx[-1]})
+                Nn = x.size
+                for n in idx:
+                    exp = float(cheb_pair(deg, Fraction(2 * (n + fsh) - (Nn - 1), Nn + 1), c1))
+                    j = n - r[0]
+                    tolp = float(tol2[j]) + 4 * U * abs(exp) + DSHIFT * eps_s * float(np.abs(x[n + si - (h - 1):n + si + h + 1]).max())
+                    if not abs(got[n] - exp) <= tolp:
+                        viol(P, f"df_timeshift(fs={fs!r}, seconds={seconds!r}) column 'p' = degree-{deg} polynomial on {Nn} samples: row {n} = {float(got[n])!r} "
+                                f"but p({n} + seconds*fs = {n}+({shift!r})) = {exp!r} (tol {tolp:.3g})",
+                             {"check": "df_poly", "cls": cls, "negative": bool(shift < 0)}, dict(rep, column=c, n=n))
+                        return
+                P.hit("df_poly_points", len(idx))
             if len(r):
                 tol2 = tol2 + 1e-9 * amax
                 o = got[r[0]:r[-1] + 1]
@@ -557,6 +630,8 @@ def check_df(P: C.Part, spec: Dict[str, Any]):
     unsel = [c for c in names if c not in sel]
     if numeric and (unsel or len(numeric) < len(sel)):
         P.nontrivial.add(("df", fs, seconds, tuple(sel), inplace, sfx))
+    if tight and numeric:
+        P.nontrivial.add(("dflong", cls, fs, seconds))
 
 
 def gen_df_spec(rng, i: int) -> Dict[str, Any]:
@@ -592,6 +667,165 @@ def gen_df_spec(rng, i: int) -> Dict[str, Any]:
             "index0": int(rng.choice([0, 0, 5]))}
 
 
+DF_FS = [0.1, 1.0 / 3.0, 0.5, 1.0, 2.0, 2.5, 4.0, 10.0, 16.0, 44.1, 100.0, 256.0, 1000.0, 1.0e4, 44100.0]
+DF_SHIFT_CLASSES = ["long_rel", "long_abs", "long_frac", "long_int", "tiny", "small", "near_int", "beyond"]
+
+
+def logu(rng, lo: float, hi: float) -> float:
+    return float(10.0 ** rng.uniform(math.log10(lo), math.log10(hi)))
+
+
+def gen_df_shift(rng, cls: str) -> float:
+    """shift in samples of one wrapper case. long_*: delays of 100..5000 samples whose distance to an integer is relative 1e-7..1e-5 of the shift /
+    absolute 1e-4..1e-2 / generic / zero; tiny: 1e-9..1e-6 samples; small: 1e-6..1e-2; near_int: a few samples +- 1e-10..1e-3; beyond: set by the caller"""
+    sg = -1.0 if rng.integers(0, 2) else 1.0
+    sg2 = -1.0 if rng.integers(0, 2) else 1.0
+    K = float(int(round(logu(rng, 100.0, 5000.0))))
+    if cls == "long_rel":
+        return sg * (K + sg2 * K * logu(rng, 1e-7, 1e-5))
+    if cls == "long_abs":
+        return sg * (K + sg2 * logu(rng, 1e-4, 1e-2))
+    if cls == "long_frac":
+        return sg * (K + float(rng.uniform(0.02, 0.98)))
+    if cls == "long_int":
+        return sg * K
+    if cls == "tiny":
+        return sg * logu(rng, 1e-9, 1e-6)
+    if cls == "small":
+        return sg * logu(rng, 1e-6, 1e-2)
+    return sg * (float(rng.integers(1, 13)) + sg2 * logu(rng, 1e-10, 1e-3))
+
+
+def gen_dflong_spec(rng, i: int) -> Dict[str, Any]:
+    """(7) for ALL shifts: the wrapper on generated records long enough to hold an interior for delays of thousands of samples, every sampling
+    rate of DF_FS, both signs, selected + unselected + non-numeric columns"""
+    cls = DF_SHIFT_CLASSES[i % len(DF_SHIFT_CLASSES)]
+    fs = float(DF_FS[int(rng.integers(0, len(DF_FS)))])
+    h = 16
+    if cls == "beyond":
+        N = int(rng.integers(40, 200))
+        shift = (-1.0 if rng.integers(0, 2) else 1.0) * (N + float(rng.uniform(0.0, 50.0)) + float(rng.choice([0.0, 0.0025, 2 * h])))
+    else:
+        shift = gen_df_shift(rng, cls)
+        N = int(abs(math.floor(shift))) + 2 * h + int(rng.integers(10, 90))
+    seconds = shift / fs
+    if seconds * fs == 0.0 or seconds == 0.0:
+        seconds = 1.0 / fs
+    deg = int([0, 1, 2, 3, 5, 31, 30, int(rng.integers(4, 32))][int(rng.integers(0, 8))])
+    columns = [["p", "a"], ["w", "p", "label"], None, ["a", "p", "k"], ["k", "label", "a", "p"], ["p", "w"]][int(rng.integers(0, 6))]
+    return {"N": N, "dseed": int(rng.integers(0, 2 ** 31)), "deg": deg, "c1n": int(rng.choice([1, -1, 3])), "cls": cls, "fs": fs, "seconds": float(seconds),
+            "columns": columns, "inplace": bool(rng.integers(0, 2)), "suffix": [None, "_ts", None][i % 3], "index0": int(rng.choice([0, 0, 5]))}
+
+
+def check_loader(P: C.Part, spec: Dict[str, Any]):
+    """multi_file_timeseries_loader(timeshifts=...) goes through the wrapper: in every returned frame the rows (identified by the untouched 'idx'
+    column) of '<c>_shifted' are timeshift(full column c as read, timeshifts[i]*fs_list[i]); files without a shift get no shifted column.
+    Which rows are kept (overlap / truncation) is outside the property and not demanded."""
+    import logging
+    import os
+    import shutil
+    import tempfile
+    import pandas as pd
+    dsp = impl()
+    rep = dict(spec, kind="loader")
+    P.cases += 1
+    tmp = tempfile.mkdtemp(prefix="vkC16_")
+    logging.disable(logging.WARNING)
+    try:
+        r = np.random.default_rng(int(spec["dseed"]))
+        files, fss, tss, full = [], [], [], []
+        for j, f in enumerate(spec["files"]):
+            N = int(f["N"])
+            tab = pd.DataFrame({"idx": np.arange(N), "a": np.round(r.standard_normal(N) + 2.0, 6), "w": np.round(np.cumsum(r.standard_normal(N)), 6)})
+            path = os.path.join(tmp, f"s{j}.txt")
+            tab.to_csv(path, sep=" ", index=False)
+            files.append(path)
+            fss.append(float(f["fs"]))
+            tss.append(None if f["ts"] is None else float(f["ts"]))
+            full.append(pd.read_csv(path, delimiter=" ", header=0, engine="c"))      # the columns exactly as the loader reads them
+        try:
+            res = dsp.multi_file_timeseries_loader(files, fss, start_time=float(spec["start_time"]), timeshifts=tss)
+        except Exception as ex:
+            viol(P, f"multi_file_timeseries_loader(fs_list={fss}, timeshifts={tss}, start_time={spec['start_time']}) raised {ex!r}",
+                 {"check": "loader", "raises": True}, rep)
+            return
+        if not isinstance(res, list) or len(res) != len(files):
+            viol(P, f"multi_file_timeseries_loader returned {type(res).__name__} of length {len(res) if hasattr(res, '__len__') else None} for {len(files)} files",
+                 {"check": "loader", "type": True}, rep)
+            return
+        h = 16
+        for j, out in enumerate(res):
+            ts, fs = tss[j], fss[j]
+            if "idx" not in out.columns or len(out) == 0:
+                P.hit("loader_empty")
+                continue
+            rows = out["idx"].to_numpy()
+            if rows.dtype.kind not in "iu" or rows.min() < 0 or rows.max() >= len(full[j]):
+                viol(P, f"multi_file_timeseries_loader changed the untouched column 'idx' of file {j}", {"check": "loader_untouched"}, dict(rep, file=j))
+                return
+            for c in ("a", "w"):
+                if not np.array_equal(out[c].to_numpy(), full[j][c].to_numpy()[rows]):
+                    viol(P, f"multi_file_timeseries_loader(timeshifts={tss}) modified the original column {c!r} of file {j} (the shifted copy goes to "
+                            f"'{c}_shifted')", {"check": "loader_untouched"}, dict(rep, file=j, column=c))
+                    return
+            shifted_cols = [c for c in out.columns if str(c).endswith("_shifted")]
+            if ts is None or ts == 0.0:
+                if shifted_cols:
+                    viol(P, f"multi_file_timeseries_loader(timeshifts={tss}): file {j} has no time shift but got columns {shifted_cols}",
+                         {"check": "loader_columns"}, dict(rep, file=j))
+                    return
+                P.hit("loader_unshifted_file")
+                continue
+            shift = ts * fs
+            si, d = split(shift)
+            eps_s = 4 * U * max(1.0, abs(float(shift)))
+            L = float(np.abs(exact_taps(h, d)).sum())
+            for c in ("a", "w", "idx"):
+                if f"{c}_shifted" not in out.columns:
+                    viol(P, f"multi_file_timeseries_loader(timeshifts={tss}): file {j} lacks column '{c}_shifted' (columns {list(out.columns)})",
+                         {"check": "loader_columns"}, dict(rep, file=j, column=c))
+                    return
+                col = full[j][c].to_numpy()
+                want = np.asarray(dsp.timeshift(col, shift), dtype=np.float64)[rows]
+                got = np.asarray(out[f"{c}_shifted"], dtype=np.float64)
+                tolT = (2 * tolc(h) * L + DSHIFT * eps_s) * float(np.abs(col.astype(np.float64)).max())
+                if not np.all(np.abs(got - want) <= tolT):
+                    n = int(np.argmax(np.abs(got - want)))
+                    viol(P, f"multi_file_timeseries_loader(fs_list={fss}, timeshifts={tss}): file {j} column '{c}_shifted' at original row {int(rows[n])} = "
+                            f"{float(got[n])!r} but timeshift(col, timeshifts[{j}]*fs_list[{j}] = {shift!r})[{int(rows[n])}] = {float(want[n])!r} (tol {tolT:.3g})",
+                         {"check": "loader_values", "negative": bool(shift < 0)}, dict(rep, file=j, column=c, n=int(rows[n])))
+                    return
+            P.hit("loader_shifted_file")
+            P.hit("loader_rows_compared", len(rows))
+            P.nontrivial.add(("loader", j, fs, ts, len(rows)))
+    finally:
+        logging.disable(logging.NOTSET)
+        shutil.rmtree(tmp, ignore_errors=True)
+
+
+def gen_loader_spec(rng, i: int) -> Dict[str, Any]:
+    """2-3 files with DIFFERENT sampling rates and shifts (long with a small fractional part, tiny, near-integer, none; negative ones short, since the
+    loader then restarts at 2|shift| SECONDS). All files span the same duration (<= ~8000 rows for the fastest); a file gets a long delay only if
+    that leaves most of its rows after the loader's own truncation (2|shift| rows)."""
+    nf = 2 + int(i % 2)
+    fsl = [float(v) for v in rng.choice([1.0, 2.0, 4.0, 10.0, 100.0, 0.5], size=nf, replace=False)]
+    dur = max(6000.0 / max(fsl), 80.0)
+    files = []
+    for j in range(nf):
+        N = int(dur * fsl[j]) + int(rng.integers(0, 7))
+        sh = None
+        if not (j == nf - 1 and i % 3 == 2):
+            long_ok = N >= 450
+            cls = str(rng.choice(["long_rel", "long_abs", "long_frac", "long_rel", "long_abs", "tiny", "near_int"] if long_ok else ["tiny", "near_int", "small"]))
+            sh = gen_df_shift(rng, cls)
+            if abs(sh) >= 100:
+                K = round(abs(sh))
+                Kn = 100 + K % max(int(N / 3.5) - 100, 1)           # same distance to the integer, delay scaled into the file
+                sh = abs(sh) - K + Kn                               # long delays positive
+        files.append({"N": N, "fs": fsl[j], "ts": None if sh is None else float(sh / fsl[j])})
+    return {"dseed": int(rng.integers(0, 2 ** 31)), "files": files, "start_time": float(rng.choice([0.0, 1.0, 3.0]))}
+
+
 def run_check(P: C.Part, c: Dict[str, Any]):
     k = c.get("kind")
     if k == "taps":
@@ -604,7 +838,9 @@ def run_check(P: C.Part, c: Dict[str, Any]):
     elif k == "poly":
         check_poly(P, int(c["N"]), int(c["h"]), int(c["deg"]), float(c["s"]), int(c.get("c1n", 1)))
     elif k == "df":
-        check_df(P, {kk: c[kk] for kk in ("cols", "fs", "seconds", "columns", "inplace", "suffix", "index0") if kk in c})
+        check_df(P, {kk: c[kk] for kk in ("cols", "fs", "seconds", "columns", "inplace", "suffix", "index0", "N", "dseed", "deg", "c1n", "cls") if kk in c})
+    elif k == "loader":
+        check_loader(P, {kk: c[kk] for kk in ("dseed", "files", "start_time")})
 
 
 def corpus(rng) -> List[Dict[str, Any]]:
@@ -723,6 +959,22 @@ def oracle(ctx, intensive: bool = False, hints=()) -> C.Part:
         if stop():
             break
         check_df(P, gen_df_spec(rng, i))
+
+    # (7) for all shifts: long delays with small fractional parts, tiny and near-integer shifts, shifts beyond the record, many sampling rates
+    n = ctx.scale(64, 480) * mult
+    for i in range(n):
+        if stop():
+            break
+        spec = gen_dflong_spec(rng, i)
+        check_df(P, spec)
+        if i < 2:
+            P.sample({"check": "df_long", "class": spec["cls"], "N": spec["N"], "fs": spec["fs"], "seconds": spec["seconds"], "samples": spec["seconds"] * spec["fs"]})
+    # the file loader applies its `timeshifts` through the wrapper
+    n = ctx.scale(6, 30) * mult
+    for i in range(n):
+        if stop():
+            break
+        check_loader(P, gen_loader_spec(rng, i))
     return P
 
 
